@@ -134,6 +134,19 @@ def check_general_n(tp, rng):
             if int(np.argmax(sp)) != k0 or abs(ax[k0] - k0 * 50.0 / n) > 1e-9:
                 bad.append(("temporalps:sinusoid-peak:n_frames=%d" % n, dict(n=n, peak=int(np.argmax(sp)), expected=k0)))
                 break
+    # many sub-apertures with very different power (the mean over sub-apertures is the plain mean, whatever their number)
+    for S in (257, 300, 648, 1000):
+        n = 16
+        x = rng.standard_normal((n, S)) * (1.0 + 9.0 * (np.arange(S) >= 256))[None, :]
+        k = np.arange(n // 2)[:, None]
+        W = np.exp(-2j * np.pi * k * np.arange(n)[None, :] / n)
+        P = np.abs(W.dot(x)) ** 2
+        want, want_err = P.mean(-1), P.std(-1) / np.sqrt(S)
+        got, err = (np.asarray(v, float) for v in tp.calc_slope_temporalps(x.copy()))
+        n_cases += 1
+        if got.shape != want.shape or not np.allclose(got, want, rtol=1e-9, atol=0) or not np.allclose(err, want_err, rtol=1e-9, atol=0):
+            bad.append(("temporalps:value:many-sub-apertures", dict(n_subaps=S, rel=float(np.abs(got / want - 1).max()) if got.shape == want.shape else None)))
+            break
     return bad, n_cases
 
 
